@@ -67,6 +67,11 @@ func (s *sim) emit() {
 
 const keySyncer = "syncer-conflict-check-live-only"
 
+// second consequence of the same pre-check, attributed by its own ablation
+// (see Run): what it decides depends on expired keys the local-deletion
+// checker has or has not removed yet on this replica
+const keySyncerLD = "syncer-conflict-check-under-local-deletion"
+
 // ---- known finding hll-dirty-cache -------------------------------------------
 //
 // PFADD keeps the sketch in a per-process dirty cache; the KV key space of the
